@@ -171,3 +171,17 @@ Definition reported_b (sigma : path -> bool) (t : item) (matching other : list p
 Definition no_empty_all_b (dflt_or : bool) (t : item) : bool :=
   forallb (fun qn => match snd qn with Op k _ [] => or_like dflt_or k | _ => true end)
           (cnodes t []).
+
+(* ---- what a search engine reports when the named elements are those of a name -> path mapping
+   (used by the end-to-end corollary with auto_name) *)
+
+(* the term covered by the named element at q is true *)
+Definition elem_true (sigma : path -> bool) (t : item) (q : path) : bool :=
+  match subexpr_at t q with
+  | Some n => match covered n q with Some a => sigma a | None => false end
+  | None => false
+  end.
+
+(* (matching, other) = (named paths whose covered term is true, the other named paths) *)
+Definition report (sigma : path -> bool) (t : item) (named : list path) : list path * list path :=
+  (filter (elem_true sigma t) named, filter (fun q => negb (elem_true sigma t q)) named).
